@@ -98,7 +98,7 @@ def materialise(root, how):
 class Case(cases.Case):
     def __init__(self, root, how, target=('doc',)):
         self.tops, self.how, self.target = [root], how, list(target)
-        self.nsmap = self.custom = self.ext = None
+        self.nsmap = self.custom = self.ext = self.live_ns = None
         self.soup = materialise(root, how)
         self.top_obj, self.target_obj = cases.pick_target(self.soup, self.target)
         self.top_sn, self.idmap = trees.snapshot(self.top_obj)
@@ -115,7 +115,7 @@ def plan(tier, seed):
 def _cfg(rng):
     return sels.Cfg(names=BASE + NONASCII + ['html', 'body'], attrs=ATTRN + ['id', 'class'], vals=VALS + TYPEV, case_names=True,
                     ids=['i1', 'I1', 'x'], classes=['k', 'K', 'x'], p_id=.12, p_class=.15, p_attr=.5, p_struct=.1, p_more=.3,
-                    p_logical=.25)
+                    p_logical=.25, attr_prefixes=[None, None, None, '*', '*', ''])
 
 
 def safe_ast(ast):
@@ -192,11 +192,27 @@ def run_unit(u):
                 form = E('form', {}, [E('input', {'type': 'checkbox', 'checked': '', 'required': ''}), E('a', {'href': 'u'}),
                                       E('input', {'type': 'submit'}), E('textarea', {'placeholder': 'p'}), root])
                 soup = trees.materialise([E('root', {'dir': 'ltr'}, [form])], how)
+            import bs4
+            xh = [e for e in soup.descendants if isinstance(e, bs4.Tag) and e.namespace == NS_XHTML]
+
+            def scoped(sel):
+                # the document kind is a property of the document, not of the element the call starts from
+                out = []
+                for e in xh[:6]:
+                    out += sv.select(sel, e, {'h': NS_XHTML})
+                    out += [e] if sv.match(sel, e, {'h': NS_XHTML}) else []
+                    c = sv.closest(sel, e, {'h': NS_XHTML})
+                    out += [c] if c is not None else []
+                    out += sv.filter(sel, e, {'h': NS_XHTML})
+                return out
             for pc in HTML_ONLY:
                 for sel in (pc, '*' + pc, 'input' + pc, ':is(%s)' % pc, 'root %s, feed %s' % (pc, pc)):
                     st, got = monitors.guarded_call(sv.select, sel, soup, {'h': NS_XHTML})
                     res['evals'] += 1
                     bump('html_only_in_xml')
+                    if st == 'ok' and not got and xh and sel in (pc, 'input' + pc):
+                        st, got = monitors.guarded_call(scoped, sel)
+                        bump('html_only_in_xml_element_scope')
                     if st != 'ok' or got:
                         bump('VIOL')
                         if len(res['viol']) < 8:
